@@ -337,6 +337,11 @@ def f3_signature(s, r, wid, key=None):
         for e in r["impl"][rel]:
             if isinstance(e, tuple) and e[0] == "EStart" and e[2] == wid and job_key(s, e[1]) == k:
                 return {"worker": wid, "key": k, "stale_job": j, "release_op": rel, "replacement_job": e[1]}
+        # the replacement was handed a job of key k (curr_jobs has k) but lost it before its handler started
+        started = {e[1] for evs in r["impl"] for e in evs if isinstance(e, tuple) and e[0] == "EStart"}
+        for e in r["impl"][rel]:
+            if isinstance(e, tuple) and e[0] == "EDrop" and e[1] not in started and job_key(s, e[1]) == k:
+                return {"worker": wid, "key": k, "stale_job": j, "release_op": rel, "replacement_job": e[1]}
     return None
 
 
